@@ -364,6 +364,101 @@ def rule_R14(text, log, where):
     log.append(('R14', where, '`mut self` parameter rebound to local v_self'))
     return ''.join(out)
 
+
+def rule_R8(text, log, where):
+    """Iterator-adapter chains ending in collect() become explicit loops (assumed std semantics: the adapters visit the elements
+    in order and collect() pushes the produced items in order):
+      let [mut] N [: T] = E.iter().map(|P| BODY).collect();                      -> let mut N [: T] = Vec::new(); for P in E.iter() { let v_item = BODY; N.push(v_item); }
+      let [mut] N [: T] = E.iter().enumerate().filter_map(|P| BODY).collect();   -> ... for P in E.iter().enumerate() { if let Some(v_item) = BODY { N.push(v_item); } }
+    Applied to every such statement of the function; closure bodies are copied verbatim."""
+    count = 0
+    while True:
+        toks = lex(text)
+        sig = sig_tokens(toks)
+        found = None
+        for i, t in enumerate(sig):
+            if not (t.kind == 'ident' and t.text == 'let'):
+                continue
+            # let [mut] NAME [: TYPE] =
+            j = i + 1
+            if sig[j].text == 'mut':
+                j += 1
+            name = sig[j].text
+            j += 1
+            ty = None
+            if sig[j].text == ':':
+                k = j + 1
+                depth = 0
+                while not (sig[k].text == '=' and depth == 0):
+                    if sig[k].text == '<':
+                        depth += 1
+                    elif sig[k].text == '>':
+                        depth -= 1
+                    k += 1
+                ty = text[sig[j + 1].start:sig[k].start].strip()
+                j = k
+            if sig[j].text != '=':
+                continue
+            # find terminating ';' at depth 0
+            k = j + 1
+            while k < len(sig) and sig[k].text != ';':
+                if sig[k].text in ('(', '[', '{'):
+                    k = match_close(sig, k)
+                k += 1
+            if k >= len(sig):
+                continue
+            # statement must end with . collect ( ) ;
+            if not (sig[k - 1].text == ')' and sig[k - 2].text == '(' and sig[k - 3].text == 'collect' and sig[k - 4].text == '.'):
+                continue
+            # the adapter call right before .collect(): `. (map|filter_map) ( |P| BODY )`
+            close = k - 5
+            if sig[close].text != ')':
+                continue
+            # find matching '(' backwards
+            depth = 0
+            q = close
+            while q > j:
+                if sig[q].text in (')', ']', '}'):
+                    depth += 1
+                elif sig[q].text in ('(', '[', '{'):
+                    depth -= 1
+                    if depth == 0:
+                        break
+                q -= 1
+            adapter = sig[q - 1].text
+            if adapter not in ('map', 'filter_map') or sig[q - 2].text != '.':
+                continue
+            if sig[q + 1].text != '|':
+                continue
+            # closure params between the two '|'
+            pe = q + 2
+            depth = 0
+            while not (sig[pe].text == '|' and depth == 0):
+                if sig[pe].text in ('(', '['):
+                    depth += 1
+                elif sig[pe].text in (')', ']'):
+                    depth -= 1
+                pe += 1
+            params = text[sig[q + 2].start:sig[pe].start].strip()
+            body = text[sig[pe + 1].start:sig[close].start].rstrip()
+            recv = text[sig[j + 1].start:sig[q - 2].start].strip()      # e.g. samples.iter() or samples.iter().enumerate()
+            found = (sig[i].start, sig[k].end, name, ty, adapter, params, body, recv)
+            break
+        if not found:
+            break
+        st, en, name, ty, adapter, params, body, recv = found
+        decl = 'let mut %s%s = Vec::new();' % (name, (': ' + ty) if ty else '')
+        if adapter == 'map':
+            loop = 'for %s in %s {\n        let v_item = %s;\n        %s.push(v_item);\n        }' % (params, recv, body, name)
+        else:
+            loop = 'for %s in %s {\n        if let Some(v_item) = %s {\n        %s.push(v_item);\n        }\n        }' % (params, recv, body, name)
+        text = text[:st] + decl + '\n        ' + loop + text[en:]
+        count += 1
+        log.append(('R8', where, '`let %s = %s.%s(|%s| ..).collect()` rewritten to an explicit loop' % (name, recv, adapter, params)))
+    if count == 0:
+        raise ExtractError('R8: no adapter chain found in ' + where)
+    return text
+
 def rule_R5(text, log, where):
     """method of `impl Iterator for T` is emitted as inherent method: Self::Item -> concrete type given by template."""
     return text
@@ -402,6 +497,24 @@ def splice_function(src_text, spec, log, where):
     """Apply rules + overlay to one function. Returns list of (line, origin)."""
     text = apply_core_rules(src_text, log, where)
     for r in spec['rules']:
+        optional = r[0] == '?'
+        if optional:
+            r = r[1:]
+            try:
+                probe = dict(spec)
+                probe['rules'] = [r]
+                # apply on a copy; on failure the rule is skipped (logged)
+                text2 = _apply_one_rule(text, r, log, where)
+                text = text2
+            except ExtractError as e:
+                log.append((r[0], where, 'optional rule not applicable: %s' % e))
+            continue
+        text = _apply_one_rule(text, r, log, where)
+    return _splice_after_rules(text, src_text, spec, log, where)
+
+
+def _apply_one_rule(text, r, log, where):
+    if True:
         rid = r[0]
         if rid == 'R6':
             text = rule_R6(text, int(r[1]), r[2] if len(r) > 2 else 'it', log, where)
@@ -409,6 +522,8 @@ def splice_function(src_text, spec, log, where):
             text = rule_R7(text, int(r[1]), log, where)
         elif rid == 'R14':
             text = rule_R14(text, log, where)
+        elif rid == 'R8' and len(r) == 1:
+            text = rule_R8(text, log, where)
         elif rid == 'R9' and len(r) == 1:
             text = rule_R9(text, log, where)
         elif rid in ('R5', 'R8', 'R9', 'R10', 'R11', 'R12', 'R13', 'R15'):
@@ -420,7 +535,10 @@ def splice_function(src_text, spec, log, where):
             text = rule_subst(text, m.group(1), m.group(2), int(m.group(3) or 0), log, where, rid)
         else:
             raise ExtractError('unknown rule %s for %s' % (rid, where))
+    return text
 
+
+def _splice_after_rules(text, src_text, spec, log, where):
     if spec.get('vacuity') and os.environ.get('VERIF_VACUITY_TWIN'):
         # vacuity guard: the twin of this function gets `ensures false` and MUST be rejected by the verifier
         newspec = []
@@ -703,6 +821,8 @@ def parse_template(path):
                     item['ret'] = arg
                 elif cmd == 'rule':
                     item['rules'].append(arg.split(' '))
+                elif cmd == 'ruleopt':
+                    item['rules'].append(['?'] + arg.split(' '))
                 elif cmd == 'mode':
                     item['mode'] = arg
                 elif cmd == 'vacuity':
